@@ -83,6 +83,7 @@ def check(ctx, rep):
             h = prog.resolve_method(C, "handle")
             if h is not None:
                 dom.header_funcs.add(h.qualname)
+            dom.header_classes.add(C.qualname)
     if gp is not None:
         for C in prog.subclasses(gp):
             for c in prog.mro(C):
